@@ -230,8 +230,20 @@ func Run(cfg Config) int {
 	}
 	sort.Strings(patterns)
 	patterns = append(patterns, extraPackages(patterns)...)
+	var extraExec []string
+	for d := range pkgSet {
+		if b, err := os.ReadFile(filepath.Join(harnessDir, d, "EXEC")); err == nil {
+			for _, l := range strings.Split(string(b), "\n") {
+				l = strings.TrimSpace(l)
+				if l != "" && !strings.HasPrefix(l, "#") {
+					extraExec = append(extraExec, l)
+					patterns = append(patterns, l)
+				}
+			}
+		}
+	}
 	loadStart := time.Now()
-	prog, err := symex.Load(cfg.Repo, overlay, patterns, nil)
+	prog, err := symex.Load(cfg.Repo, overlay, patterns, extraExec)
 	if err != nil {
 		fmt.Fprintln(os.Stderr, "load:", err)
 		return 2
